@@ -7,6 +7,7 @@ spec/sync/SemaImpl.tla      layer B: sema_llgo.go at lock/atomic granularity, mo
 binding 1: runtime/internal/lib/runtime/sema_llgo.go copied from the working tree, psync/latomic redirected to
            scheduler gates (atomics are scheduling points), driven through all interleavings; judged by A.
 spec/sync/AtomicSC.tla      layer A for sync/atomic: every operation one step on one memory; outcome sets of litmus programs
+spec/sync/GoStmt.tla        layer A for go statements: snapshot at the statement, any order of parent mutation and child run
 spec/sync/AtomicTSO.tla     layer B: x86-TSO with llgo's instruction selection as switches (see vlib/c11litmus.py)
 binding 2: llgo-compiled programs exercising go statements, Mutex, RWMutex, WaitGroup, Once, Cond and atomics of
            every width with real pthreads; their printed invariants must equal what GoSync predicts.
@@ -20,6 +21,7 @@ from . import sched
 from . import c10
 from . import progs
 from . import c11litmus
+from . import c11gostmt
 
 SPEC = os.path.join(C.VERIF, "spec", "sync")
 
@@ -259,6 +261,8 @@ def check(chk):
         progs.run_sync_programs(chk, thorough, sd)
         # ---- binding 3: sync/atomic litmus programs judged by AtomicSC (one total order, indivisible operations)
         c11litmus.run(chk, thorough, sd)
+        # ---- binding 4: go statements (callee, receiver and arguments as evaluated at the statement), judged by GoStmt
+        c11gostmt.run(chk, thorough, sd)
     chk.assumptions += ["semaphore/notify-list state is accessed only under its mutex or through atomics (gates are the only scheduling points)",
                         "Go's own sync package (Mutex, RWMutex, WaitGroup, Once, Cond) is correct given the semaphore and notify-list contracts",
                         "real-pthread runs of compiled programs explore only the schedules the OS happens to produce"]
